@@ -170,6 +170,7 @@ CORPUS = [
     "if a\n  # c1\nelif b\n  # c2\nelse\n  # c3\nendif\nf(aaaaaaaaaaaaaaaaaa, bbbbbbbbbbbbbbbbbbbbbb, cccccccccccccccccccc)\n",
     "foreach k, v : d\n  # first\n  x += v # second\n  # third\nendforeach\ny = g(aaaaaaaaaaaaaaaaaa, bbbbbbbbbbbbbbbbbbbbbb)\n",
     "n = 'w'\nx = f'hello \\x40n\\x40'\ny = f'\\100n\\100 @n@'\n",
+    "x = (a and\n  b == -1)\n", "ok = (have_aaaaaaaaaaaaaaa and have_bbbbbbbbbbbbbbbbbbb and cc.sizeof('long') == -1)\n",
     "x = files(f'b.c', 'a.c')\n", "x = files(f'b@0@.c', '''a.c''', 'c.c')\n", "x = files(\n  'b.c',\n  'a.c' # last\n)\n", "x = (a and # why\n  b)\n",
 ]
 
